@@ -181,14 +181,14 @@ inductive Out (α : Type)
   | ret (v : Val)
   | fuel
   | stuck (why : String)
-  deriving Repr, Inhabited
+  deriving Repr, Inhabited, DecidableEq
 
 /-- Writer-style result: the host calls made while evaluating this piece, in
     order, and how it ended. -/
 structure R (α : Type) where
   tr : Trace
   out : Out α
-  deriving Repr, Inhabited
+  deriving Repr, Inhabited, DecidableEq
 
 namespace R
 @[inline] def ok {α} (a : α) : R α := ⟨[], .ok a⟩
@@ -234,11 +234,19 @@ def bindParams : List Nat → List Val → Env → Option Env
 
 def bindAll : List Nat → List Int → Env → Option Env
   | [], [], acc => some acc
-  | x :: ps, v :: vs, acc => bindAll ps vs ((x, .int v) :: acc)
+  | x :: ps, v :: vs, acc =>
+    match lookup acc x with
+    | some _ => none            -- a binder must be a fresh name
+    | none => bindAll ps vs ((x, .int v) :: acc)
   | _, _, _ => none
 
-/-- Leave a scope: keep the innermost `depth` bindings' *outer* part. -/
-def leave (depth : Nat) (env : Env) : Env := env.drop (env.length - depth)
+/-- Leave a scope: the variables of the enclosing scope `outer`, with the
+    values they have now (in `env'`). Variables are *resolved names* — one per
+    declaration, as in the compiler's IR; declaring a name that is already
+    visible is `stuck` below — so this is exactly "discard the bindings made
+    inside, keep the updates of outer variables". -/
+def leave (outer : Env) (env' : Env) : Env :=
+  outer.filterMap (fun p => (lookup env' p.1).map (fun v => (p.1, v)))
 
 def asInts : List Val → Option (List Int)
   | [] => some []
@@ -250,7 +258,7 @@ def asInts : List Val → Option (List Int)
 def matchPat (env : Env) (v : Val) (p : Pat) : Option Env :=
   match p, v with
   | .wild, _ => some env
-  | .variant 0 [x], .opt (some n) => some ((x, .int n) :: env)
+  | .variant 0 [x], .opt (some n) => bindAll [x] [n] env
   | .variant 1 [], .opt none => some env
   | .variant k bs, .enm k' fs =>
     if k = k' then bindAll bs fs env else none
@@ -344,8 +352,10 @@ def evalExpr (fns : List FnDef) : Nat → Env → Expr → R (Env × Val)
       let (env, cv) ← evalExpr fns n env c
       match cv with
       | .bool true => do
-        let (env, _) ← evalBlock fns n env t
-        pure (env, .unit)
+        let (env, bv) ← evalBlock fns n env t
+        match bv with
+        | .unit => pure (env, .unit)
+        | _ => .stuck "if without else: the block must have type ()"
       | .bool false => pure (env, .unit)
       | _ => .stuck "if on non-bool"
     | .mtch s arms => do
@@ -444,7 +454,9 @@ def evalSeq (fns : List FnDef) : Nat → Env → Block → R (Env × Val)
   | n + 1, env, .last e => evalExpr fns n env e
   | n + 1, env, .let_ x e rest => do
     let (env, v) ← evalExpr fns n env e
-    evalSeq fns n ((x, v) :: env) rest
+    match lookup env x with
+    | some _ => .stuck "redeclaration of a visible name (names are resolved: one per declaration)"
+    | none => evalSeq fns n ((x, v) :: env) rest
   | n + 1, env, .stmt e rest => do
     let (env, _) ← evalExpr fns n env e
     evalSeq fns n env rest
@@ -455,7 +467,7 @@ def evalBlock (fns : List FnDef) : Nat → Env → Block → R (Env × Val)
   | 0, _, _ => .fuel
   | n + 1, env, b => do
     let (env', v) ← evalSeq fns n env b
-    pure (leave env.length env', v)
+    pure (leave env env', v)
 
 /-- Arms top to bottom; the guard of an arm runs only if its pattern matches. -/
 def evalArms (fns : List FnDef) : Nat → Env → Val → Arms → R (Env × Val)
@@ -465,7 +477,7 @@ def evalArms (fns : List FnDef) : Nat → Env → Val → Arms → R (Env × Val
     match matchPat env v p with
     | some env' => do
       let (env', r) ← evalBlock fns n env' body
-      pure (leave env.length env', r)
+      pure (leave env env', r)
     | none => evalArms fns n env v rest
   | n + 1, env, v, .armG p g body rest =>
     match matchPat env v p with
@@ -474,8 +486,8 @@ def evalArms (fns : List FnDef) : Nat → Env → Val → Arms → R (Env × Val
       match gv with
       | .bool true => do
         let (env', r) ← evalBlock fns n env' body
-        pure (leave env.length env', r)
-      | .bool false => evalArms fns n (leave env.length env') v rest
+        pure (leave env env', r)
+      | .bool false => evalArms fns n (leave env env') v rest
       | _ => .stuck "guard is not a bool"
     | none => evalArms fns n env v rest
 
@@ -509,9 +521,12 @@ def evalWhile (fns : List FnDef) : Nat → Env → Expr → Block → R (Env × 
 def evalFor (fns : List FnDef) : Nat → Env → Nat → List Int → Block → R (Env × Val)
   | 0, _, _, _, _ => .fuel
   | _ + 1, env, _, [], _ => .ok (env, .unit)
-  | n + 1, env, x, v :: vs, b => do
-    let (env', _) ← evalBlock fns n ((x, .int v) :: env) b
-    evalFor fns n (leave env.length env') x vs b
+  | n + 1, env, x, v :: vs, b =>
+    match lookup env x with
+    | some _ => .stuck "redeclaration of a visible name (names are resolved: one per declaration)"
+    | none => do
+      let (env', _) ← evalBlock fns n ((x, .int v) :: env) b
+      evalFor fns n (leave env env') x vs b
 end
 
 /-- What one call of `main` (the last function) does: the ordered host calls,
